@@ -375,6 +375,7 @@ class Impl:
                 return str(b.count(int(a[0])))
             return str(b.count(int(a[0]), int(a[1])))
         if op == 'pick_iter':
+            # `care_vars` is documented as a set (it is read more than once)
             care = None if len(a) == 1 else set(split1(a[1]))
             return ','.join(sorted(
                 assignment_str(d) for d in b.pick_iter(int(a[0]), care)))
@@ -444,7 +445,11 @@ def shaped(items, salt):
     documented to take an iterable, so callers pass all of these.  The kind is a function of the
     elements (reproducible, and the model never sees it)."""
     items = list(items)
-    k = (sum(len(str(x)) + sum(map(ord, str(x))) for x in items) + salt) % 5
+    k = (sum(len(str(x)) + sum(map(ord, str(x))) for x in items) + salt) % 7
+    if k == 5:
+        return set(items)
+    if k == 6:
+        return frozenset(items)
     if k == 0:
         return OrderedKeys(items)
     if k == 1:
